@@ -427,7 +427,7 @@ pub fn run_c12(a: &Args, rep: &mut Report) {
     flush(rep, &mut cases);
     // programs of mixed sizes (native code from a few bytes to several pages) compiled and dropped
     // by 8 threads at once, each on its own VM: same Ok/Err as alone, no panic, no crash
-    if !cfg!(miri) && !par_cases.is_empty() {
+    if !cfg!(miri) && !par_cases.is_empty() && crate::mon_par::par_mult() > 0 {
         let big_cases: Vec<Case> = (0..40usize)
             .map(|k| {
                 let n = 600 + (k * 137 + a.shard as usize * 53) % 5400;
